@@ -248,3 +248,30 @@ Definition kernel_eqb (a b : list val * list nat) : bool :=
    the windows of the items, in order, labels dropped *)
 Definition wvalues (r : res (list (val * list row))) : res (list (list row)) := res_map (map (@snd val (list row))) r.
 Definition wvres_eqb (a b : res (list (list row))) : bool := res_eqb (list_eqb (list_eqb row_eqb)) a b.
+
+(* ---- other public forms of the same iterators ---- *)
+Definition lists_same {X} (eqb : X -> X -> bool) (a b : list X) : bool :=
+  Nat.eqb (length a) (length b) && forallb (fun x => existsb (eqb x) b) a && forallb (fun x => existsb (eqb x) a) b.
+
+(* values-only group iterators (iter_group / iter_group_labels iterated directly): the groups, keys dropped *)
+Definition gvalues (r : res (list (option val * list row))) : res (list (list row)) :=
+  res_map (map (@snd (option val) (list row))) r.
+Definition gvres_eqb (a b : res (list (list row))) : bool := res_eqb (list_eqb (list_eqb row_eqb)) a b.
+Definition gvres_same (a b : res (list (list row))) : bool := res_eqb (lists_same (list_eqb row_eqb)) a b.
+
+(* apply_iter: the function values in iteration order, no labels *)
+Definition avalues (r : res (list (option val) * list val)) : res (list val) := res_map (@snd (list (option val)) (list val)) r.
+Definition avres_eqb (a b : res (list val)) : bool := res_eqb vlist_eqb a b.
+Definition avres_same (a b : res (list val)) : bool := res_eqb (lists_same val_eqb) a b.
+
+(* windows with window_valid = "even number of rows" and/or window_func = "reverse the rows":
+   container_util.py:498-503 -- the validity callback is asked after the size test, the function is applied last *)
+Definition wpost (even_only reversed : bool) (r : res (list (val * list row))) : res (list (val * list row)) :=
+  res_map (fun items =>
+             map (fun it : val * list row => (fst it, if reversed then rev (snd it) else snd it))
+                 (filter (fun it : val * list row => negb even_only || Nat.even (length (snd it))) items)) r.
+
+(* iter_window(...).apply(func): Series.from_items((label, func(window)) ...) *)
+Definition wapply (all : list row) (r : res (list (val * list row))) : res (list (option val) * list val) :=
+  res_map (fun items => (map (fun it : val * list row => Some (fst it)) items,
+                         map (fun it : val * list row => bitmask all (snd it)) items)) r.
